@@ -9,6 +9,7 @@ import (
 	"reflect"
 	"runtime/debug"
 	"sort"
+	"strings"
 
 	segment "github.com/blugelabs/bluge_segment_api"
 )
@@ -91,13 +92,27 @@ func WalkPostings(pl segment.PostingsList, freq, norm, locs bool) ([]XPosting, e
 func Observe(seg segment.Segment, probe []string, fc Facets) (obs *XSeg, err error) {
 	err = safely("Observe", func() error {
 		var e error
-		obs, e = observe(seg, probe, fc)
+		obs, e = observe(seg, probe, fc, nil)
 		return e
 	})
 	return obs, err
 }
 
-func observe(seg segment.Segment, probe []string, fc Facets) (*XSeg, error) {
+// ObserveLenient is Observe for the frozen reference reader: a stored-field
+// visit that panics with the reference's own known defect (the look-ahead
+// beyond a short last record, fixed in the current code) is recorded in
+// excluded instead of failing the observation.
+func ObserveLenient(seg segment.Segment, probe []string, fc Facets) (obs *XSeg, excluded map[int]bool, err error) {
+	excluded = map[int]bool{}
+	err = safely("Observe(reference reader)", func() error {
+		var e error
+		obs, e = observe(seg, probe, fc, excluded)
+		return e
+	})
+	return obs, excluded, err
+}
+
+func observe(seg segment.Segment, probe []string, fc Facets, lenientStored map[int]bool) (*XSeg, error) {
 	x := &XSeg{N: int(seg.Count()), Post: map[string]map[string][]XPosting{}, DV: map[string][][]string{},
 		Stats: map[string]XStats{}, DictCount: map[string]map[string]uint64{}, PLCount: map[string]map[string]uint64{},
 		ContainsAll: true}
@@ -168,10 +183,22 @@ func observe(seg segment.Segment, probe []string, fc Facets) (*XSeg, error) {
 		x.Stored = make([][]XStored, x.N)
 		for d := 0; d < x.N; d++ {
 			var vals []XStored
-			err := seg.VisitStoredFields(uint64(d), func(field string, value []byte) bool {
-				vals = append(vals, XStored{field, string(value)})
-				return true
-			})
+			visit := func() error {
+				return seg.VisitStoredFields(uint64(d), func(field string, value []byte) bool {
+					vals = append(vals, XStored{field, string(value)})
+					return true
+				})
+			}
+			var err error
+			if lenientStored != nil {
+				err = safely("VisitStoredFields", visit)
+				if err != nil && strings.Contains(err.Error(), "slice bounds out of range") {
+					lenientStored[d] = true
+					continue
+				}
+			} else {
+				err = visit()
+			}
 			if err != nil {
 				return nil, fmt.Errorf("VisitStoredFields(%d): %v", d, err)
 			}
@@ -280,18 +307,22 @@ func Diff(exp, obs *XSeg, fc Facets) string {
 			return "Contains() returned false for an enumerated term"
 		}
 	}
-	if fc.Counts && obs.DictCount != nil {
+	if fc.Counts {
 		for f, oterms := range obs.Post {
 			for t, ops := range oterms {
 				want := uint64(len(exp.Post[f][t]))
 				if fc.Postings {
 					want = uint64(len(ops))
 				}
-				if c := obs.DictCount[f][t]; c != want {
-					return fmt.Sprintf("field %q term %q: dictionary entry count %d, expected %d", f, t, c, want)
+				if obs.DictCount != nil {
+					if c := obs.DictCount[f][t]; c != want {
+						return fmt.Sprintf("field %q term %q: dictionary entry count %d, expected %d", f, t, c, want)
+					}
 				}
-				if c := obs.PLCount[f][t]; c != want {
-					return fmt.Sprintf("field %q term %q: PostingsList.Count %d, expected %d", f, t, c, want)
+				if obs.PLCount != nil {
+					if c := obs.PLCount[f][t]; c != want {
+						return fmt.Sprintf("field %q term %q: PostingsList.Count %d, expected %d", f, t, c, want)
+					}
 				}
 			}
 		}
@@ -368,7 +399,7 @@ func DiffObs(a, b *XSeg, fc Facets) string {
 	if d := Diff(a, b, fc); d != "" {
 		return d
 	}
-	if fc.Counts {
+	if fc.Counts && a.DictCount != nil && b.DictCount != nil {
 		if !reflect.DeepEqual(a.DictCount, b.DictCount) {
 			return fmt.Sprintf("dictionary counts differ: %v vs %v", a.DictCount, b.DictCount)
 		}
